@@ -136,8 +136,8 @@ PROPERTIES = {
         assumptions=['Instant + Duration does not overflow; fewer than 2^64 consecutive failures'],
     ),
     'C03': dict(
-        units=['active_peers', 'crypto', 'tls_config', 'wire', 'enum_glue'],
-        canaries=['dialing', 'streams', 'crypto', 'tls_config'],
+        units=['active_peers', 'crypto', 'tls_config', 'wire', 'enum_glue', 'enum_certs'],
+        canaries=['dialing', 'streams', 'crypto', 'tls_config', 'certs'],
         extra=[validate.history_c03, validate.cert_corpus],
         counterexample=cex.cex_cert,
         scope='glue only: (a) the pinning verifier accepts a server certificate only if its public key is the expected identity AND the base verifier accepts it, '
